@@ -6,6 +6,7 @@ package c08
 import (
 	"bytes"
 	"fmt"
+	"path/filepath"
 	"reflect"
 	"sort"
 	"strings"
@@ -93,6 +94,35 @@ func variants(mk func() interface{}, k int, f func(desc string, obj interface{})
 			}
 		}
 	}
+}
+
+// distinguishing probes every single-slot deviation of both bases for the distinguishing-value
+// baseline (packs.Distinct).
+func distinguishing(d *packs.Distinct, typ string, mk func() interface{}, enc func(o interface{}) []byte) {
+	for base := 0; base <= 1; base++ {
+		base := base
+		_, slots := build(mk, base, nil)
+		for _, s := range slots {
+			for alt := 0; alt < s.N; alt++ {
+				if alt == base {
+					continue
+				}
+				dev := map[string]int{s.Path: alt}
+				d.Probe(typ, fmt.Sprintf("%d|%s|%d", base, s.Path, alt),
+					func() []byte { o, _ := build(mk, base, nil); return enc(o) },
+					func() []byte { o, _ := build(mk, base, dev); return enc(o) })
+			}
+		}
+	}
+}
+
+func safeEnc(f func() []byte) (b []byte) {
+	defer func() {
+		if r := recover(); r != nil {
+			b = nil
+		}
+	}()
+	return f()
 }
 
 func encStep(s step.Step) (b []byte, err interface{}) {
@@ -247,32 +277,35 @@ func (k *ck) streams(maxLen int) {
 
 // ---- transaction records ------------------------------------------------------------------------------
 
+// txRecordOf builds a transaction record with the optional groups of mask present.
+func txRecordOf(mask int) *service.TxRecord {
+	t := service.NewTxRecord()
+	t.Txid = 99
+	if mask&1 != 0 {
+		t.Mtid, t.Mdepth, t.Mcaller = 77, 2, 66
+	}
+	if mask&2 != 0 {
+		t.McallerPcode, t.McallerOkind, t.McallerOid, t.McallerSpec, t.McallerUrl, t.MthisSpec = 5, 4, 3, 2, 1, 9
+	}
+	if mask&4 != 0 {
+		t.Fields = value.NewMapValue()
+		t.Fields.PutString("f1", "v")
+		t.Fields.PutLong("f2", 7)
+	}
+	if mask&8 != 0 {
+		t.Error = 1234 // with ErrorLevel 0: the decoder defaults the level to WARNING
+	}
+	if mask&16 != 0 {
+		t.Uuid, t.OriginUrl = "uuid-1", "/origin"
+	}
+	return t
+}
+
 func (k *ck) txRecords(kdev int) {
 	// the 2^5 combinations of the optional groups
 	for mask := 0; mask < 32; mask++ {
 		mask := mask
-		mk := func() interface{} {
-			t := service.NewTxRecord()
-			t.Txid = 99
-			if mask&1 != 0 {
-				t.Mtid, t.Mdepth, t.Mcaller = 77, 2, 66
-			}
-			if mask&2 != 0 {
-				t.McallerPcode, t.McallerOkind, t.McallerOid, t.McallerSpec, t.McallerUrl, t.MthisSpec = 5, 4, 3, 2, 1, 9
-			}
-			if mask&4 != 0 {
-				t.Fields = value.NewMapValue()
-				t.Fields.PutString("f1", "v")
-				t.Fields.PutLong("f2", 7)
-			}
-			if mask&8 != 0 {
-				t.Error = 1234 // with ErrorLevel 0: the decoder defaults the level to WARNING
-			}
-			if mask&16 != 0 {
-				t.Uuid, t.OriginUrl = "uuid-1", "/origin"
-			}
-			return t
-		}
+		mk := func() interface{} { return txRecordOf(mask) }
 		lim := 0
 		if mask == 0 || mask == 31 {
 			lim = kdev
@@ -303,9 +336,10 @@ func (k *ck) txRecords(kdev int) {
 					want.Fields = nil
 				}
 				if f := packs.Diff(&want, d); f != "" {
-					// wire-equivalence: narrowing fields re-encode identically
+					// wire-equivalence: narrowing fields re-encode identically. The records "as built"
+					// hold small values that fit every width: there every field must come back as written
 					wb := append([]byte{}, (&want).ToBytes()...)
-					if !bytes.Equal(wb, d.ToBytes()) {
+					if desc == "as built" || !bytes.Equal(wb, d.ToBytes()) {
 						k.viol("TxRecord:field:"+strip(f), fmt.Sprintf("TxRecord groups=%05b %s: field %s is not restored", mask, desc, f))
 					}
 				}
@@ -460,6 +494,36 @@ func Run(c *evid.Ctx) {
 	k.txRecords(kdev)
 	k.services(kdev)
 	k.stepBlobs()
+	// distinguishing-value baseline: a writer that stops carrying a value is invisible to the round trip
+	dist := packs.NewDistinct(filepath.Join(evid.Root, "harness", "props", "c08", "distinguishing.json"))
+	for _, st := range stepTypes {
+		st := st
+		distinguishing(dist, st.name, func() interface{} { return st.mk() }, func(o interface{}) []byte {
+			b, err := encStep(o.(step.Step))
+			if err != nil {
+				return nil
+			}
+			return b
+		})
+	}
+	for _, mask := range []int{0, 1, 2, 3, 31} {
+		mask := mask
+		distinguishing(dist, fmt.Sprintf("TxRecord(groups=%05b)", mask), func() interface{} { return txRecordOf(mask) }, func(o interface{}) []byte {
+			return safeEnc(func() []byte { return append([]byte{}, o.(*service.TxRecord).ToBytes()...) })
+		})
+	}
+	for _, mk := range []func() service.Service{func() service.Service { return service.NewWasService() }, func() service.Service { return service.NewAppService() }, func() service.Service { return service.NewWasService2() }} {
+		mk := mk
+		tn := strings.TrimPrefix(reflect.TypeOf(mk()).String(), "*service.")
+		distinguishing(dist, tn, func() interface{} { return mk() }, func(o interface{}) []byte {
+			return safeEnc(func() []byte {
+				out := gio.NewDataOutputX()
+				service.ToBytes(o.(service.Service), out)
+				return append([]byte{}, out.ToByteArray()...)
+			})
+		})
+	}
+	dist.Finish(c, "C08")
 	c.Count("evaluations", k.evals)
 	c.Count("distinct_nontrivial", k.nontriv)
 	c.Cov["step_type_variants"] = len(stepTypes)
